@@ -286,6 +286,51 @@ impl CompressedCircuit {
         Ok(circuit)
     }
 
+    /// Inflate a raw DEFLATE stream into at most `max_size` bytes, requiring
+    /// the stream to span the whole input. The convenience decoders of
+    /// `miniz_oxide` stop at the final block and silently ignore whatever
+    /// follows it, which would let a description carry trailing data.
+    fn inflate_exact(input: &[u8], max_size: usize) -> Result<Vec<u8>, Error> {
+        use miniz_oxide::inflate::TINFLStatus;
+        use miniz_oxide::inflate::core::{
+            DecompressorOxide, decompress, inflate_flags,
+        };
+
+        let flags = inflate_flags::TINFL_FLAG_USING_NON_WRAPPING_OUTPUT_BUF;
+        let mut output = vec![0u8; input.len().saturating_mul(2).min(max_size)];
+        let mut decompressor = alloc::boxed::Box::<DecompressorOxide>::default();
+        let mut in_pos = 0;
+        let mut out_pos = 0;
+
+        loop {
+            let remaining = input
+                .get(in_pos..)
+                .ok_or(Error::InvalidCompressedCircuit)?;
+            let (status, in_consumed, out_consumed) = decompress(
+                &mut decompressor,
+                remaining,
+                &mut output,
+                out_pos,
+                flags,
+            );
+            in_pos += in_consumed;
+            out_pos += out_consumed;
+
+            match status {
+                TINFLStatus::Done if in_pos == input.len() => {
+                    output.truncate(out_pos);
+                    return Ok(output);
+                }
+                TINFLStatus::HasMoreOutput if output.len() < max_size => {
+                    let new_len =
+                        output.len().saturating_mul(2).clamp(1, max_size);
+                    output.resize(new_len, 0);
+                }
+                _ => return Err(Error::InvalidCompressedCircuit),
+            }
+        }
+    }
+
     fn remap_witness(
         composer: &mut Composer,
         witness_map: &mut HashMap<usize, Witness>,
@@ -305,10 +350,7 @@ impl CompressedCircuit {
         max_constraints: usize,
     ) -> Result<Composer, Error> {
         let max_size = Self::packed_size_limit(max_constraints)?;
-        let compressed = miniz_oxide::inflate::decompress_to_vec_with_limit(
-            compressed, max_size,
-        )
-        .map_err(|_| Error::InvalidCompressedCircuit)?;
+        let compressed = Self::inflate_exact(compressed, max_size)?;
         let circuit = Self::unpack_bounded(&compressed, max_constraints)?;
 
         let scalar_map = scalar_map(circuit.hades_optimization);
